@@ -249,6 +249,17 @@ func (f *File) Render(old bool) string {
 		}
 		w.fn(fn)
 	}
+	if !f.IsMain && len(f.Calls) > 0 {
+		w.line(0, "// Deps calls into the imported project packages.")
+		w.line(0, "func Deps() int {")
+		w.line(1, "total := 0")
+		for _, c := range f.Calls {
+			w.line(1, "total += %s(3, 4)", c)
+		}
+		w.line(1, "return total")
+		w.line(0, "}")
+		w.line(0, "")
+	}
 	if f.IsMain {
 		w.line(0, "func main() {")
 		w.line(1, "total := 0")
